@@ -62,7 +62,7 @@ package store
 // sees the transaction's own latest write (a recorded delete reads as "absent") and falls through to the
 // parent only for keys the transaction never wrote; Discard forgets everything. Nothing reaches the
 // parent before Flush.
-//@ spec func memHash(k BSeq) int
+//@ spec func memHash(k BSeq) uint64
 //@ func lib.MemHash
 //@   trusted
 //@   pure
@@ -75,22 +75,22 @@ package store
 //@ func (*Txn).update
 //@   modifies map(uint64;valueOp), ghost(mutexHeld)
 //@   ensures[recorded] indom(t.txn.ops, memHash(bytes(key))) && t.txn.ops[memHash(bytes(key))].value == val && t.txn.ops[memHash(bytes(key))].op == opAction && t.txn.ops[memHash(bytes(key))].version == version && t.txn.ops[memHash(bytes(key))].key == key
-//@   ensures[others] forall h uint64 :: h != memHash(bytes(key)) ==> indom(t.txn.ops, h) == old(indom(t.txn.ops, h)) && t.txn.ops[h] == old(t.txn.ops[h])
+//@   ensures[others] forall h int :: h != memHash(bytes(key)) ==> indom(t.txn.ops, h) == old(indom(t.txn.ops, h)) && t.txn.ops[h] == old(t.txn.ops[h])
 //@ func (*Txn).Set
 //@   modifies map(uint64;valueOp), ghost(mutexHeld)
 //@   ensures[recorded] indom(t.txn.ops, memHash(bytes(key))) && t.txn.ops[memHash(bytes(key))].value == value && t.txn.ops[memHash(bytes(key))].op == opSet && t.txn.ops[memHash(bytes(key))].version == t.writeVersion
-//@   ensures[others] forall h uint64 :: h != memHash(bytes(key)) ==> indom(t.txn.ops, h) == old(indom(t.txn.ops, h)) && t.txn.ops[h] == old(t.txn.ops[h])
+//@   ensures[others] forall h int :: h != memHash(bytes(key)) ==> indom(t.txn.ops, h) == old(indom(t.txn.ops, h)) && t.txn.ops[h] == old(t.txn.ops[h])
 //@ func (*Txn).Delete
 //@   modifies map(uint64;valueOp), ghost(mutexHeld)
 //@   ensures[recorded] indom(t.txn.ops, memHash(bytes(key))) && t.txn.ops[memHash(bytes(key))].op == opDelete && t.txn.ops[memHash(bytes(key))].version == t.writeVersion
-//@   ensures[others] forall h uint64 :: h != memHash(bytes(key)) ==> indom(t.txn.ops, h) == old(indom(t.txn.ops, h)) && t.txn.ops[h] == old(t.txn.ops[h])
+//@   ensures[others] forall h int :: h != memHash(bytes(key)) ==> indom(t.txn.ops, h) == old(indom(t.txn.ops, h)) && t.txn.ops[h] == old(t.txn.ops[h])
 //@ func (*Txn).Get
 //@   ensures[ownwrite] old(indom(t.txn.ops, memHash(bytes(key)))) && old(t.txn.ops[memHash(bytes(key))].op) == opSet ==> isnil(result1) && result0 == old(t.txn.ops[memHash(bytes(key))].value)
 //@   ensures[owndelete] old(indom(t.txn.ops, memHash(bytes(key)))) && old(t.txn.ops[memHash(bytes(key))].op) == opDelete ==> isnil(result1) && result0 == nil
 //@   callsite Get requires[fallthrough] !indom(t.txn.ops, old(memHash(bytes(key))))
-//@   ensures[readonly] forall h uint64 :: indom(t.txn.ops, h) == old(indom(t.txn.ops, h)) && t.txn.ops[h] == old(t.txn.ops[h])
+//@   ensures[readonly] forall h int :: indom(t.txn.ops, h) == old(indom(t.txn.ops, h)) && t.txn.ops[h] == old(t.txn.ops[h])
 //@ func (*Txn).Discard
-//@   ensures[empty] forall h uint64 :: !indom(t.txn.ops, h)
+//@   ensures[empty] forall h int :: !indom(t.txn.ops, h)
 // flushing one recorded operation: a set becomes SetAt, a delete becomes DeleteAt, of the recorded key
 // (under the flush prefix), value and the flush version - nothing else is written
 //@ spec func bcat(a BSeq, b BSeq) BSeq
@@ -111,6 +111,56 @@ package store
 //@   callsite DeleteAt requires[delete] op.op == opDelete && arg2 == writeVersion && (prefix == nil ? arg1 == op.key : bytes(arg1) == bcat(bytes(prefix), bytes(op.key)))
 // (the deferred closure of Commit: unlock, then forget the flushed operations)
 //@ func (*Txn).Commit$1
-//@   ensures[empty] forall h uint64 :: !indom(t.txn.ops, h)
+//@   ensures[empty] forall h int :: !indom(t.txn.ops, h)
 //@ func (*Txn).Commit
-//@   ensures[emptied] forall h uint64 :: !indom(t.txn.ops, h)
+//@   ensures[emptied] forall h int :: !indom(t.txn.ops, h)
+
+// ---- C06: every identity of an included transaction is indexed ------------------------------------------------
+// The replay check looks an incoming transaction up by each of its identity hashes (its own hash and, for an
+// Ethereum-wrapped transaction, the hash of the wrapped payload). Whatever the indexer's configuration, a
+// successful IndexTx has therefore recorded the result under the hash key of EVERY hash indexedTxHashes lists.
+// txHashKeyOf(h): the store key a transaction hash is filed under (JoinLenPrefix of the prefix and the hash: ASSUMED
+// to be a function of the hash alone).
+//@ spec func txHashKeyOf(h BSeq) BSeq
+//@ func (*Indexer).txHashKey
+//@   trusted
+//@   pure
+//@   ensures bytes(result) == txHashKeyOf(bytes(hash))
+//@ func indexedTxHashes
+//@   trusted
+//@   pure
+//@   ensures isnil(result1) ==> len(result0) >= 1
+//@ func (*Indexer).indexTxByHash
+//@   ensures[filed] isnil(err) ==> indom(t.db.txn.ops, memHash(txHashKeyOf(bytes(hash))))
+//@   ensures[others] forall h int :: old(indom(t.db.txn.ops, h)) ==> indom(t.db.txn.ops, h)
+// key builders write only into the buffer they return (ASSUMED)
+//@ func (*Indexer).key
+//@   trusted
+//@   pure
+//@ func (*Indexer).encodeBigEndian
+//@   trusted
+//@   pure
+// the other index writes of IndexTx only add entries
+//@ func (*Indexer).indexTxByHeightAndIndex
+//@   ensures[others] forall h int :: old(indom(t.db.txn.ops, h)) ==> indom(t.db.txn.ops, h)
+//@ func (*Indexer).indexTxBySender
+//@   ensures[others] forall h int :: old(indom(t.db.txn.ops, h)) ==> indom(t.db.txn.ops, h)
+//@ func (*Indexer).indexTxByRecipient
+//@   ensures[others] forall h int :: old(indom(t.db.txn.ops, h)) ==> indom(t.db.txn.ops, h)
+//@ func (*Indexer).IndexTx
+//@   loop 1 invariant[aliases] forall k int :: 0 <= k && k <= iter ==> indom(t.db.txn.ops, memHash(txHashKeyOf(bytes(hashes[k]))))
+//@   ensures[identities] isnil(result) ==> forall k int :: 0 <= k && k < len(local(hashes)) ==> indom(t.db.txn.ops, memHash(txHashKeyOf(bytes(local(hashes)[k]))))
+
+// ---- C07: the per-transaction store is an overlay over EVERYTHING a handler writes ---------------------------------
+// A nested store (what TxnWrap puts around every transaction) has an overlay of its own for the state AND for the
+// indexer (handlers index double signers and checkpoints while a transaction runs): each overlay is a new Txn
+// that reads from and flushes to the parent's, so dropping the nested store drops both kinds of writes.
+// Discard of a nested store forgets the indexer overlay; a successful Flush has flushed it.
+//@ func (*Store).NewTxn
+//@   ensures[nested] typeis(result, *Store) && fresh(dyn(result, *Store)) && dyn(result, *Store).isTxn
+//@   ensures[stateoverlay] dyn(result, *Store).ss != nil && fresh(dyn(result, *Store).ss) && dyn(dyn(result, *Store).ss.reader, *Txn) == old(s.ss) && dyn(dyn(result, *Store).ss.writer, *Txn) == old(s.ss)
+//@   ensures[indexoverlay] dyn(result, *Store).Indexer != nil && fresh(dyn(result, *Store).Indexer) && dyn(result, *Store).Indexer.db != nil && fresh(dyn(result, *Store).Indexer.db) && dyn(dyn(result, *Store).Indexer.db.reader, *Txn) == old(s.Indexer.db) && dyn(dyn(result, *Store).Indexer.db.writer, *Txn) == old(s.Indexer.db)
+//@ func (*Store).Discard
+//@   ensures[indexdropped] old(s.isTxn) ==> forall h int :: !indom(s.Indexer.db.txn.ops, h)
+//@ func (*Store).Flush
+//@   ensures[indexflushed] isnil(result) ==> forall h int :: !indom(s.Indexer.db.txn.ops, h)
